@@ -9,6 +9,7 @@ A check object provides
 import traceback
 
 from . import ddmin
+from .. import common as common_mod
 
 
 class Failure(object):
@@ -75,10 +76,22 @@ def explore(ctx, check, n, label='h', max_shrinks_per_raw=2):
         r = ctx.rng(label, i)
         h = check.gen(r, ctx)
         st.evaluations += 1
-        f = check.run(h, st)
+        guard = common_mod.LOOP_GUARD
+        guard.arm()
+        try:
+            f = check.run(h, st)
+        except common_mod.StepBudget as e:
+            f = Failure(None, 'non-termination', str(e), ['<history did not finish>'])
+            st.count('loop_guard_verdicts')
+        finally:
+            guard.disarm()
         if i < 2:
             st.sample({'kind': label, 'history': h})
         if f is None:
+            continue
+        if f.read == 'non-termination':
+            # not shrunk: every candidate would have to be run to its end
+            st.violation('non-termination:%s' % label, repr(f), {'history': h})
             continue
         raw = '%s|%r' % (f.cls(), (f.op[0] if isinstance(f.op, (list, tuple)) and f.op else f.op))
         raw_seen[raw] = raw_seen.get(raw, 0) + 1
